@@ -323,11 +323,26 @@ Record inmsg := mkM { m_tid_ok : bool;     (* the header's tunnel id names this 
 Definition ep_submits (e : endpoint) (rs : list (Z * Z)) (now : Z) : endpoint :=
   fold_left (fun e r => fst (ep_submit e (fst r) (snd r) now None)) rs e.
 
+(* FlushAck (control_channel.go, e462f04): emit the owed ZLB now; the write's error is ignored *)
+Definition flush_ack (c : chan) : chan * list pkt :=
+  match c_zlb c with
+  | None => (c, [])
+  | Some _ => (mkC (c_ns c) (c_nr c) (c_cwnd c) (c_ssth c) (c_pw c) (c_q c) (c_rto c) None,
+               [mkK None 0 (c_ns c) (c_nr c)])
+  end.
+Definition ep_flush (e : endpoint) (drops : list nat) : endpoint :=
+  let '(c', o) := flush_ack (e_ch e) in
+  mkE (e_f e) c' (e_sent e ++ keep_ok drops 0 o) (e_sub e) (e_del e) (e_acked e) (e_dead e) (e_wmax e).
+
+(* a handler that unregisters the tunnel (HandleStopCCN, lns.go) first flushes the acknowledgement, because the
+   runner is stopped with it and nobody ticks the channel again *)
 Definition node_dispatch (n : node) (m : inmsg) (now : Z) : node :=
   if n_known n && m_tid_ok m then
     let '(e1, ob) := ep_deliver false (n_ep n) (m_pkt m) now None in
     match ob with
-    | ODeliver true _ _ => mkN (negb (m_removes m)) (ep_submits e1 (m_replies m) now)
+    | ODeliver true _ _ =>
+        let e2 := ep_submits e1 (m_replies m) now in
+        mkN (negb (m_removes m)) (if m_removes m then ep_flush e2 [] else e2)
     | _ => mkN true e1
     end
   else n.
@@ -336,7 +351,7 @@ Inductive nevent := NMsg (m : inmsg) (now : Z) | NTick (now : Z).
 Definition node_step (n : node) (ev : nevent) : node :=
   match ev with
   | NMsg m now => node_dispatch n m now
-  | NTick now => mkN (n_known n) (fst (ep_tick (n_ep n) now []))
+  | NTick now => if n_known n then mkN true (fst (ep_tick (n_ep n) now [])) else n   (* runner stopped with the tunnel *)
   end.
 Definition node_run (n : node) (evs : list nevent) : node := fold_left node_step evs n.
 
